@@ -66,7 +66,7 @@ def rows_multiset(path):
 
 def sequential_part(chk, exprs):
     rng = chk.rng
-    n = 80 if chk.tier == "quick" else 2500
+    n = 500 if chk.tier == "quick" else 2500
     seeds = 2 if chk.tier == "quick" else 6
     for i in range(n):
         d = session.scratch_dir()
@@ -151,7 +151,7 @@ class SlowFile:
 
 def parallel_part(chk, exprs):
     rng = chk.rng
-    n = 25 if chk.tier == "quick" else 600
+    n = 50 if chk.tier == "quick" else 600
     o_open = pers._FilePersistence._open_file_and_append_execution_comment
 
     def slow_open(self):
